@@ -102,6 +102,8 @@ def envelope_spec(draw, tier):
     if mode in ("cli", "keystore"):
         spec["keystore"] = draw(keystore_spec())
         spec["aad"] = None  # the tool passes no associated data
+        # the envelope names the keystore's key id (as real files do), in any of the spellings of a UUID
+        spec["keyinfo_case"] = draw(st.sampled_from(["lower", "lower", "upper", "mixed"]))
     return spec
 
 
@@ -162,6 +164,10 @@ def check(spec) -> Outcome:
             out.fail("mismatch|keystore-repeat", "second parse of the same keystore text differs")
         key = ks_key
         spec = dict(spec, key=key.hex())
+        if spec.get("keyinfo_case"):
+            kid = {"lower": ks_id.lower(), "upper": ks_id.upper(), "mixed": ks_id[:18].upper() + ks_id[18:].lower()}[spec["keyinfo_case"]]
+            spec["attrs"] = [[t, f, n, (kid if n == "vmware.keyInfo" else v)] for t, f, n, v in spec["attrs"]]
+            out.cls("keyinfo-" + spec["keyinfo_case"])
         if mode == "keystore":
             out.nontrivial = len(spec["keystore"]["extra"]) > 0
             return out
@@ -185,6 +191,20 @@ def check(spec) -> Outcome:
     got, err = decrypt(data, wrong, aad)
     if err is None:
         out.fail("accepted|wrong-key", "decrypt succeeded with a wrong key")
+    # one object, several calls: a rejected attempt (wrong key, wrong associated data) must not spoil a later correct one
+    from dissect.hypervisor.util.envelope import Envelope
+
+    env, err = lib(Envelope, core_track(data))
+    if not err:
+        for k_, a_, ok in ((wrong, aad, False), (key, aad, True), (key, b"other-aad", False), (key, aad, True)):
+            got, err = lib(env.decrypt, k_, aad=a_)
+            if ok and (err or got != payload):
+                out.fail("mismatch|decrypt-after-rejection", "a correct decrypt() after a rejected one on the same Envelope object "
+                         + (f"raised {err.describe()}" if err else "returned other bytes"))
+                break
+            if not ok and err is None:
+                out.fail("accepted|wrong-input-same-object", "decrypt() with a wrong key / associated data succeeded on a reused Envelope object")
+                break
     # wrong / missing aad
     if aad:
         got, err = decrypt(data, key, None)
@@ -242,7 +262,13 @@ def check_cli(spec, out, data, payload, ks_text):
             with open(op, "wb") as f:  # an older, longer output file is in the way: it must be replaced, not patched
                 f.write(b"STALE" * (len(payload) // 5 + 300))
         sys.argv = ["envelope-decrypt", ep, "-ks", kp, "-o", op]
-        rc, err = lib(tool.main)
+        try:
+            rc, err = lib(tool.main)
+        except SystemExit as e:  # argparse's parser.exit / parser.error
+            if e.code not in (0, None):
+                out.fail("exit|cli", f"CLI exited with {e.code!r} for a well-formed envelope and its keystore")
+                return out
+            err = None
         if err:
             out.fail(err.sig("cli"), f"CLI raised {err.describe()}")
             return out
